@@ -28,8 +28,11 @@ def _smooth(job):
     shape, lr, nu, seed, cplx = job[:5]
     # weakly damped class (air-like cells: omega mu sigma h^2 ~ 1e-9): the
     # node / line blocks are close to singular, tolerances are wider
-    weak = len(job) > 5 and job[5]
-    tol_fix, tol_zero = (1e-5, 1e-6) if weak else (1e-11, 1e-10)
+    # job[5]: 0 = normal, 1 = weak (1e-9), 2 = very weak (1e-12: the pivots
+    # of the block solves keep ~4 digits; only gross errors are visible)
+    weak = int(job[5]) if len(job) > 5 else 0
+    tol_fix, tol_zero = {0: (1e-11, 1e-10), 1: (1e-5, 1e-6),
+                         2: (1e-2, 1e-3)}[weak]
     rng = np.random.default_rng(seed)
     h = [rng.uniform(1, 3, n) for n in shape]
     grid = emg3d.TensorMesh(h, (0, 0, 0))
@@ -43,7 +46,7 @@ def _smooth(job):
     # for Laplace, imaginary for frequency); random but well-conditioned
     s = (2j*np.pi*rng.uniform(0.5, 2)) if cplx else rng.uniform(0.5, 2)
     if weak:
-        s = s*1e-9
+        s = s*(1e-9 if weak == 1 else 1e-12)
     sig = [rng.uniform(0.5, 2, shape) for _ in range(3)]
     eta = [-s*vol*sg for sg in sig]
     zeta = vol/rng.uniform(1, 2, shape)
@@ -141,8 +144,8 @@ def _smooth(job):
                          "gauss_seidel_z"):
                 setattr(core, name, saved[name].py_func)
             ep = run(e0, s0)
-            samejit = bool(np.linalg.norm(ep - e1) <= (
-                1e-7 if weak else 1e-12)*np.linalg.norm(e1))
+            samejit = bool(np.linalg.norm(ep - e1) <= {
+                0: 1e-12, 1: 1e-7, 2: 1e-2}[weak]*np.linalg.norm(e1))
     finally:
         for name, orig in saved.items():
             setattr(core, name, orig)
@@ -150,7 +153,7 @@ def _smooth(job):
             "kernels": kernels[:len(kernels)] if kernels else [],
             "zerores": zerores, "boundarywritten": bw, "fixedpoint": fixed,
             "affine": affine, "samejit": samejit, "seed": seed,
-            "cplx": cplx, "weak": bool(weak)}
+            "cplx": cplx, "weak": int(weak)}
 
 
 def _band(job):
@@ -236,7 +239,7 @@ def run(tier, replay=None):
         with open(replay) as f:
             j = json.load(f)["case"]
         jobs = [(tuple(j["shape"]), j["lr"], j["nu"], j["seed"], j["cplx"],
-                 j.get("weak", False))]
+                 int(j.get("weak", 0)))]
         bjobs = []
     else:
         jobs = []
@@ -256,7 +259,8 @@ def run(tier, replay=None):
         for lr in range(8):
             for shape in rng.sample(shapes[:8], 2):
                 jobs.append((shape, lr, rng.choice([1, 2, 3]),
-                             rng.randrange(10**6), rng.random() < 0.5, True))
+                             rng.randrange(10**6), rng.random() < 0.5,
+                             rng.choice([1, 2])))
         bjobs = [(nc, rng.randrange(10**6), rng.random() < 0.5)
                  for nc in (2, 3, 4, 5, 6) for _ in range(3)]
     with mp.get_context("fork").Pool(C.NCPU) as pool:
